@@ -88,12 +88,12 @@ func (p *pp) handleSpecialValues(
 	case safeWrapperType:
 		handled = true
 		defer p.startSafeOverride().restore()
-		p.printValue(value.Field(0), verb, depth+1)
+		p.printWrapped(value, verb, depth)
 
 	case unsafeWrapperType:
 		handled = true
 		defer p.startUnsafeOverride().restore()
-		p.printValue(value.Field(0), verb, depth+1)
+		p.printWrapped(value, verb, depth)
 
 	case redactableStringType:
 		handled = true
@@ -107,6 +107,26 @@ func (p *pp) handleSpecialValues(
 	}
 
 	return handled
+}
+
+// printWrapped prints the value held by a Safe() or Unsafe() wrapper
+// met during reflection (a struct field, a reflect.Value operand).
+//
+// The wrapper keeps the value in an unexported field: a reflect.Value
+// taken from that field cannot be converted back to an interface, so
+// the formatting methods of the wrapped value (Stringer, error,
+// Formatter, SafeFormatter...) would not be called, unlike for a
+// wrapper held by a slice or map element. When the wrapper itself is
+// accessible, take the value through its accessor and print it like
+// an operand, as the method dispatch does for a Safe() wrapper.
+func (p *pp) printWrapped(value reflect.Value, verb rune, depth int) {
+	if value.CanInterface() {
+		if g, ok := value.Interface().(interface{ GetValue() interface{} }); ok {
+			p.printArg(g.GetValue(), verb)
+			return
+		}
+	}
+	p.printValue(value.Field(0), verb, depth+1)
 }
 
 // Sprintfn produces a RedactableString using the provided
